@@ -26,6 +26,8 @@ package nut14
 //@   calls schnorr.Sign asserts @message [C13] bytes(hash) == sha256(bytesOf(proof.Secret)) && privKey == signingKey
 
 //@ func AddWitnessHTLCToOutputs
+// the outputs come back in place: same list, same length (the wallet counts them for its NUT-13 counter)
+//@   ensures @same [C19] r1 == nil ==> r0 == outputs
 //@   tags C13
 //@   safety C06 C13
 //@   calls schnorr.Sign asserts @message [C13] hexok(output.B_) && bytes(hash) == sha256(hexdec(output.B_)) && privKey == signingKey
